@@ -111,7 +111,7 @@ func main() {
 	if v, err := strconv.Atoi(os.Getenv("VERIF_C14_LINKS")); err == nil {
 		links = v
 	}
-	nOoo, nInproc, nSync := run.N(8, 160), run.N(4, 100), run.N(3, 60)
+	nOoo, nInproc, nSync := run.N(6, 160), run.N(3, 100), run.N(2, 60)
 	switch os.Getenv("VERIF_C14_ONLY") {
 	case "stops":
 		nBase, directed, nOoo, nInproc, nSync = 0, false, 0, 0, 0
